@@ -2,6 +2,8 @@
    swf c: c is a consistent strict converter (C05); every converter built by the strict constructor is (C05_init). *)
 From Curies.model Require Import Str PyData Trie Conv Query Val Answer Spec CheckQ Mutate.
 From Curies.proofs Require Import StrFacts IndexFacts QueryFacts C04Facts MutateFacts ChainFacts.
+From Curies.model Require Import CheckR.
+From Curies.proofs Require Import PModelR09.
 
 (* either ValueError (a later record bridges two earlier ones, or no input) or a converter satisfying C04 / C05 *)
 Theorem C09_raise_or_wf : forall fold_c cs sens,
@@ -69,3 +71,9 @@ Proof.
   - eexists. split; [vm_compute; reflexivity|]. vm_compute. auto.
   - eexists. split; [vm_compute; reflexivity|]. vm_compute. auto.
 Qed.
+
+(* the executable predicate of the run accepts the model's own observation on every valid case (chain and get_subconverter) *)
+Theorem C09_P_model : forall k : rcase, valid_r k = true ->
+  (match rc_op k with DChain _ | DSub _ => True | _ => False end) -> P_C09 k (model_robs k) = true.
+Proof. exact P_C09_model. Qed.
+Print Assumptions C09_P_model.
